@@ -103,38 +103,12 @@ def run_structural(chk, F):
                "BitReader no longer derives Clone (field-wise copy)")
 
 
-def run_siblings(chk, F):
-    """unbuffered reader: peek_bits and read_bits compute the same window (same fetches, same shifts); they may differ only in
-    advancing bit_index and in the final narrowing cast"""
-    chk.rule("R6.siblings", floor=2, doc="BitReader::peek_bits computes the same window expression as BitReader::read_bits (cross-check of sibling implementations)")
-    for e, ety in (("be", BE), ("le", LE)):
-        vals = {}
-        for nm in ("read_bits", "peek_bits"):
-            b = F.one(name=nm, trait_is="traits::bits::BitRead<%s>" % ety, impl_self="impls::bit_reader::BitReader<")
-            vs = set()
-            for p in mir.walk(b):
-                r = p.ret
-                if p.end[0] == "return" and isinstance(r, tuple) and r[0] == "agg" and r[3] == "Ok":
-                    ex = mir.expand(r[4][0], p)
-                    while isinstance(ex, tuple) and ex[0] == "cast":
-                        ex = ex[1]
-                    if ex[0] == "const":
-                        ex = ex[:2]
-                    vs.add(str(ex))
-            vals[nm] = vs
-        chk.expect("R6.siblings", "BitReader." + e, vals["read_bits"] == vals["peek_bits"] and len(vals["read_bits"]) >= 2,
-                   "BitReader<%s>: peek_bits and read_bits assemble different windows from the fetched words" % e.upper(),
-                   detail={"only_read": sorted(vals["read_bits"] - vals["peek_bits"])[:2], "only_peek": sorted(vals["peek_bits"] - vals["read_bits"])[:2]},
-                   sample={"reader": "BitReader<%s>" % e.upper(), "window_expressions": len(vals["read_bits"])})
-
-
 def run_all(chk, fsets, tier):
     import facts
     for i, fs in enumerate(fsets):
         F = facts.load(fs)
         if i == 0:
             run_structural(chk, F)
-            run_siblings(chk, F)
         specs = [s for s in rn.reader_specs() if s.group is None]
         chk.rule("R2.numeric", floor=300 if i == 0 else 0,
                  doc="E3: asserts, shift ranges, call preconditions, reachable panics and 0 <= bits_in_buffer < 2W at every return; W in {8,16,32,64}; unbuffered reader over u64")
